@@ -232,6 +232,12 @@ def make_input(rng):
     return raw, vals
 
 
+def make_full_input(rng):
+    """make_input plus the byte of the trailing field zz (Parts 1 / 1b: nothing is placed before zz)."""
+    raw, vals = make_input(rng)
+    return raw + bytes([rng.choice(ALPHABET)]), vals
+
+
 def parsed_values(holder):
     """The values the fields' own slots hold (a described field: its hidden slot, never the descriptor)."""
     return {nm: getattr(holder, ATTR[nm]) for nm in FIELD_NAMES}
@@ -1088,7 +1094,7 @@ def part1(run, rng, classes, ntrees, maxdepth, ninputs, sibling_share):
         # candidate inputs; eager reference FIRST (guard before the library is called)
         cands = []
         for j in range(ninputs):
-            raw, vals = make_input(rng)
+            raw, vals = make_full_input(rng)
             try:
                 pkt = cls.unpack(raw)
             except Exception as e:
@@ -1255,7 +1261,7 @@ def part1b(run, rng, classes, ninputs):
                 run.violation("a bare field was rejected as a condition (%s)" % type(e).__name__,
                               {"part": "1b", "operand_class": class_src(cname, copts), "field": nm, "error": str(e)[:200]})
         for _ in range(ninputs):
-            raw, vals = make_input(rng)
+            raw, vals = make_full_input(rng)
             pkt = cls.unpack(raw)
             if parsed_values(pkt) != vals:
                 run.count("harness_parsed_differs_from_encoded")
